@@ -147,8 +147,52 @@ class PreState(Obligation):
                 cx.true('%s does not mention the pre-state' % k, True)
 
 
+class SDRZTable(Obligation):
+    """the reaction-zone table (run_tvec) is a function of the parameters and the particle times alone: no entry is
+    computed from memory the call has not written (np.empty is modelled as arbitrary values), and behind the end of the
+    reaction zone (t > 1) a particle continues from its position at t = 1 with the constant CJ-state speed"""
+
+    def __init__(self):
+        self.m = H.mod('exactpack.solvers.sdrz.sdrz')
+        self.id = 'C06.sdrz.table'
+        self.modules = [self.m]
+        self.extra_shim = {'ExactSolution': Recorder}
+        self.functions = [self.m.SteadyDetonationReactionZone.run_tvec]
+        self.bounds = 'D, rho_0, gamma and a table of three particle times 0, t_a, t_b with 0 < t_a < t_b symbolic (every t <= 1 / t > 1 combination)'
+        self.max_paths = 100
+        self.skip_validation = True        # uninitialised memory has no value to validate against
+
+    def build(self, mk):
+        s = self.m.SteadyDetonationReactionZone(D=mk('D'), rho_0=mk('rho_0'), gamma=mk('gamma'))
+        f = H.fields(s.run_tvec(H.arr([0 * mk('ta'), mk('ta'), mk('tb')])))
+        out = {}
+        for k in ('position_relative', 'velocity', 'pressure', 'density'):
+            for j, nm in ((1, 'a'), (2, 'b')):
+                out['%s_%s' % (k, nm)] = f[k][j]
+        out['_x1'] = s.rho_0 * s.Dj / s.rhoj * ((1 - 1 / s.gamma) + 1 / (2 * s.gamma))      # relative position at t = 1
+        out['_D'] = mk('D')
+        return out
+
+    def domain(self, V):
+        return [T.gt(V('ta'), T.ZERO), T.gt(V('tb'), V('ta')), T.gt(V('gamma'), T.ONE), T.gt(V('D'), T.ZERO), T.gt(V('rho_0'), T.ZERO)]
+
+    def claims(self, cx):
+        if cx.symbolic:
+            for k, v in cx.out.items():
+                if k.startswith('_'):
+                    continue
+                names = T.free_vars([term_of(v)]) if isinstance(v, SymReal) else []
+                cx.true('%s is computed from the parameters and the times alone (no read of uninitialised memory)' % k,
+                        not any(n.startswith('uninit') for n in names))
+        for nm in ('a', 'b'):
+            t = cx.p('t' + nm)
+            late = (t > 1) if cx.symbolic else bool(t > 1)
+            cx.eq('t_%s > 1: position_relative = x_rel(1) + (D - u)(t - 1)' % nm, cx['position_relative_' + nm],
+                  cx['_x1'] + (cx['_D'] - cx['velocity_' + nm]) * (t - 1), when=late)
+
+
 def obligations(tier):
-    obs = []
+    obs = [SDRZTable()]
     noh = H.mod('exactpack.solvers.noh.noh1')
     pos = lambda *ns: (lambda V: [T.gt(V(n), T.ZERO) for n in ns])
     f1 = lambda s, mk: H.first(H.run_1d(s, mk))
